@@ -18,6 +18,11 @@ mkdir -p "$OUT"
   echo "replace github.com/polynetwork/poly => $REPO"
   echo
   awk '/^replace \(/{f=1;print;next} f&&/^\)/{print;f=0;next} f{print}' "$REPO/go.mod"
+  # extra replace directives of individual harnesses: one `old => new` per line in replace.d/*.txt, $HERE expanded
+  # (e.g. a pure-Go stand-in for a cgo binding whose C library is not in the sandbox)
+  for f in "$HERE"/replace.d/*.txt; do
+    if [ -f "$f" ]; then sed -e "s|\$HERE|$HERE|g" -e 's/^/replace /' "$f"; fi
+  done
 } > "$OUT/go.mod.tmp.$$"
 mv "$OUT/go.mod.tmp.$$" "$OUT/go.mod"
 cp "$REPO/go.sum" "$OUT/go.sum.tmp.$$"
